@@ -7,15 +7,24 @@
 #include "ref_pixel.h"
 #include "ref_ops.h"
 
-typedef struct { int dither, dox, doy; } extra_t;
+typedef struct { int dither, dox, doy; int amap_acc;        /* accessors installed on the image's own alpha-map object */
+                 int other;           /* role whose image is attached as this image's alpha map (cross attachment), or -1 */
+                 int holders;         /* how many images use this image as their alpha map */ } extra_t;
 static rq_request L;                 /* live request (records + live images) */
 static extra_t lx[3];                /* extra properties not in rq_image: src, mask, dst */
 static pixman_indexed_t *pal_pool[3][2];
 
+/* accessors that are NOT the identity on the storage (every byte is kept XOR 0x5a): an image that ignores its accessors, or keeps using
+ * them after they were removed, reads and writes different pixels.  Byte-wise, so that mixed 8/16/32-bit accesses stay consistent. */
 static uint32_t acc_read (const void *src, int size)
-{ switch (size) { case 1: return *(const uint8_t *)src; case 2: { uint16_t v; memcpy (&v, src, 2); return v; } default: { uint32_t v; memcpy (&v, src, 4); return v; } } }
+{ switch (size) { case 1: return *(const uint8_t *)src ^ 0x5au; case 2: { uint16_t v; memcpy (&v, src, 2); return v ^ 0x5a5au; } default: { uint32_t v; memcpy (&v, src, 4); return v ^ 0x5a5a5a5au; } } }
 static void acc_write (void *dst, uint32_t value, int size)
-{ switch (size) { case 1: *(uint8_t *)dst = (uint8_t)value; break; case 2: { uint16_t v = (uint16_t)value; memcpy (dst, &v, 2); break; } default: memcpy (dst, &value, 4); break; } }
+{ switch (size) { case 1: *(uint8_t *)dst = (uint8_t)(value ^ 0x5a); break; case 2: { uint16_t v = (uint16_t)(value ^ 0x5a5a); memcpy (dst, &v, 2); break; } default: value ^= 0x5a5a5a5au; memcpy (dst, &value, 4); break; } }
+static void apply_accessors (rq_request *q)
+{   /* rq_build installs pass-through accessors: replace them by the XOR pair */
+    rq_image *im[3] = { &q->src, &q->mask, &q->dst };
+    for (int i = 0; i < 3; i++) if (im[i]->img && im[i]->kind == RQ_BITS && im[i]->accessors && PIXMAN_FORMAT_BPP (im[i]->fmt) <= 32) pixman_image_set_accessors (im[i]->img, acc_read, acc_write);
+}
 
 static rq_image *role_img (rq_request *q, int role) { return role == 0 ? &q->src : role == 1 ? &q->mask : &q->dst; }
 
@@ -33,7 +42,7 @@ static const char *mutate (vf_rng *r, int role)
     rq_image *im = role_img (&L, role);
     rq_image tmp;
     int is_bits = im->kind == RQ_BITS;
-    switch (vf_next (r) % 14) {
+    switch (vf_next (r) % 17) {
     case 0: { /* transform: new, identity, NULL, or the identical value again */
         int k = (int)(vf_next (r) % 5);
         if (k == 0) { im->tr_class = TR_NONE; pixman_transform_init_identity (&im->tr); pixman_image_set_transform (im->img, NULL); return "set_transform(NULL)"; }
@@ -57,10 +66,31 @@ static const char *mutate (vf_rng *r, int role)
     case 5: if (role != 2) { im->clip_sources = vf_chance (r, 1, 2); pixman_image_set_source_clipping (im->img, im->clip_sources); return "set_source_clipping"; } return NULL;
     case 6: im->ca = vf_chance (r, 1, 2); pixman_image_set_component_alpha (im->img, im->ca); return "set_component_alpha";
     case 7: if (is_bits && !rp_is_float (im->fmt)) { im->accessors = vf_chance (r, 1, 2); if (im->accessors) pixman_image_set_accessors (im->img, acc_read, acc_write); else pixman_image_set_accessors (im->img, NULL, NULL); return "set_accessors"; } return NULL;
-    case 8: if (is_bits) { /* alpha map: attach (same map object, maybe new origin), detach */
-        if (im->amap && vf_chance (r, 1, 3)) { im->alpha_map = 0; pixman_image_set_alpha_map (im->img, NULL, 0, 0); return "set_alpha_map(NULL)"; }
-        if (im->amap) { im->alpha_map = 1; im->am_x = (int)vf_range (r, -2, 2); im->am_y = (int)vf_range (r, -2, 2); pixman_image_set_alpha_map (im->img, im->amap, (int16_t)im->am_x, (int16_t)im->am_y); return "set_alpha_map(same map, new origin)"; }
+    case 8: if (is_bits) { /* alpha map: attach the image's own map object (maybe new origin; directly replacing a cross attachment), detach */
+        if (im->amap && vf_chance (r, 1, 3)) { im->alpha_map = 0; if (lx[role].other >= 0) { lx[lx[role].other].holders--; lx[role].other = -1; } pixman_image_set_alpha_map (im->img, NULL, 0, 0); return "set_alpha_map(NULL)"; }
+        if (im->amap) {
+            im->am_x = (int)vf_range (r, -2, 2); im->am_y = (int)vf_range (r, -2, 2);
+            pixman_image_set_alpha_map (im->img, im->amap, (int16_t)im->am_x, (int16_t)im->am_y);
+            /* refused (nothing changes) while this image is itself somebody's alpha map */
+            if (lx[role].holders > 0) return "set_alpha_map(own map) while used as a map: refused";
+            if (lx[role].other >= 0) { lx[lx[role].other].holders--; lx[role].other = -1; im->alpha_map = 1; return "set_alpha_map(own map) replacing another image"; }
+            im->alpha_map = 1; return "set_alpha_map(same map, new origin)"; }
         } return NULL;
+    case 14: if (is_bits && im->amap && im->alpha_map && lx[role].other < 0) { /* accessors on the attached alpha-map object: the parent image itself is not touched */
+        lx[role].amap_acc = !lx[role].amap_acc;
+        if (lx[role].amap_acc) pixman_image_set_accessors (im->amap, acc_read, acc_write); else pixman_image_set_accessors (im->amap, NULL, NULL);
+        return lx[role].amap_acc ? "set_accessors(on the attached alpha map)" : "set_accessors(NULL, on the attached alpha map)"; } return NULL;
+    case 15: case 16: if (is_bits && !rp_is_float (im->fmt)) { /* another role's bits image as this image's alpha map (a chain is refused) */
+        int other = (role + 1 + (int)(vf_next (r) % 2)) % 3; rq_image *m = role_img (&L, other);
+        if ((other == 1 && !L.has_mask) || L.pixbuf || m->kind != RQ_BITS || rp_is_float (m->fmt) || !m->img) return NULL;
+        int x = (int)vf_range (r, -2, 2), y = (int)vf_range (r, -2, 2);
+        pixman_image_set_alpha_map (im->img, m->img, (int16_t)x, (int16_t)y);
+        int accepted = lx[role].holders == 0 && !m->alpha_map && lx[other].other < 0;       /* this image is nobody's map; the map has no map of its own */
+        if (!accepted) return "set_alpha_map(another image): refused (chain)";
+        if (lx[role].other == other) { im->am_x = x; im->am_y = y; return "set_alpha_map(same other image, new origin)"; }
+        if (lx[role].other >= 0) lx[lx[role].other].holders--;
+        lx[role].other = other; lx[other].holders++; im->alpha_map = 0; im->am_x = x; im->am_y = y;
+        return "set_alpha_map(another role's image)"; } return NULL;
     case 9: if (is_bits && rp_is_indexed (im->fmt)) { int k = (int)(vf_next (r) % 2); im->palette = pal_pool[role][k]; pixman_image_set_indexed (im->img, im->palette); return "set_indexed"; } return NULL;
     case 10: if (role == 2) { lx[2].dither = (int)(vf_next (r) % 3) == 0 ? PIXMAN_DITHER_NONE : vf_chance (r, 1, 2) ? PIXMAN_DITHER_ORDERED_BAYER_8 : PIXMAN_DITHER_ORDERED_BLUE_NOISE_64; pixman_image_set_dither (im->img, lx[2].dither); return "set_dither"; } return NULL;
     case 11: if (role == 2) { lx[2].dox = (int)vf_range (r, 0, 7); lx[2].doy = (int)vf_range (r, 0, 7); pixman_image_set_dither_offset (im->img, lx[2].dox, lx[2].doy); return "set_dither_offset"; } return NULL;
@@ -91,13 +121,14 @@ static void copy_pixels (rq_image *to, const rq_image *from)
 static void hist_case (long idx, vf_rng *r)
 {
     rq_generate (r, &L, RQP_NO_INDEXED * 0);
-    memset (lx, 0, sizeof lx);
+    memset (lx, 0, sizeof lx); for (int i = 0; i < 3; i++) lx[i].other = -1;
     /* every bits image gets an alpha-map object to play with (attached or not) */
     for (int role = 0; role < 3; role++) { rq_image *im = role_img (&L, role); if (role == 1 && !L.has_mask) continue; if (im->kind == RQ_BITS && !im->alpha_map) { im->am_x = 0; im->am_y = 0; im->am_w = im->w; im->am_h = im->h; } }
     /* build with alpha maps present, then detach those the record says are absent */
     int want_am[3];
     for (int role = 0; role < 3; role++) { rq_image *im = role_img (&L, role); want_am[role] = im->alpha_map; if ((role != 1 || L.has_mask) && im->kind == RQ_BITS && !rp_is_float (im->fmt)) im->alpha_map = 1; }
     if (!rq_build (&L, r)) return;
+    apply_accessors (&L);
     for (int role = 0; role < 3; role++) { rq_image *im = role_img (&L, role); if (role == 1 && !L.has_mask) continue; if (im->kind == RQ_BITS && im->amap && !want_am[role]) { im->alpha_map = 0; pixman_image_set_alpha_map (im->img, NULL, 0, 0); }
         if (im->kind == RQ_BITS && rp_is_indexed (im->fmt)) { pal_pool[role][0] = im->palette; pal_pool[role][1] = rq_make_palette (im->fmt, im->pixseed ^ 0x777); } }
     char hist[1400]; int hk = 0; hist[0] = 0;
@@ -123,6 +154,10 @@ static void hist_case (long idx, vf_rng *r)
         vf_rng br = *r;
         if (!rq_build (&R, &br)) break;
         for (int role2 = 0; role2 < 3; role2++) { rq_image *im = role_img (&R, role2); if (role2 == 1 && (!R.has_mask || pixbuf)) continue; free (im->palette); im->palette = keep[role2]; finish_replica (im, role2); }
+        apply_accessors (&R);
+        for (int role2 = 0; role2 < 3; role2++) { rq_image *im = role_img (&R, role2); if (role2 == 1 && (!R.has_mask || pixbuf)) continue;
+            if (lx[role2].amap_acc && im->amap && im->alpha_map) pixman_image_set_accessors (im->amap, acc_read, acc_write);
+            if (lx[role2].other >= 0 && im->img && role_img (&R, lx[role2].other)->img) pixman_image_set_alpha_map (im->img, role_img (&R, lx[role2].other)->img, (int16_t)im->am_x, (int16_t)im->am_y); }
         copy_pixels (&R.src, &L.src); if (L.has_mask && !pixbuf) copy_pixels (&R.mask, &L.mask); copy_pixels (&R.dst, &L.dst);
         static char desc[1800]; rq_describe (&L, desc, sizeof desc);
         vf_case_desc ("after history [%s] composite: %s dither=%d(%d,%d)", hist, desc, lx[2].dither, lx[2].dox, lx[2].doy);
@@ -141,6 +176,8 @@ static void hist_case (long idx, vf_rng *r)
         vf_cell ("cells", vf_mix (rq_cell (&L), vf_hash (hist, strlen (hist), 9)));
         pixman_image_t *live_am = L.dst.amap; if (!L.dst.alpha_map) L.dst.amap = NULL;      /* a detached map object is not part of the destination */
         uint64_t dl = rq_digest (&L), dr = rq_digest (&R);
+        for (int role2 = 0; role2 < 2; role2++) { rq_image *a = role_img (&L, role2), *b2 = role_img (&R, role2); if (role2 == 1 && (!L.has_mask || pixbuf)) continue;
+            if (a->kind == RQ_BITS && a->buf.base && b2->buf.base) { dl = vf_hash (a->buf.base, a->buf.bytes, dl); dr = vf_hash (b2->buf.base, b2->buf.bytes, dr); } }
         L.dst.amap = live_am;
         if (dl != dr) {
             /* name the last setter of each image in the key: that is usually the stale one */
